@@ -153,7 +153,12 @@ func c20RandomCounter(out *verifh.Out, r *verifh.Rand, n, minS, length int) {
 }
 
 // address templates with the class the harness expects by construction:
-// class = pub + 2*udp + 4*ip6
+// class = pub + 2*udp + 4*ip6 (+ 8 when the address is ALSO a /p2p-circuit address:
+// a relayed address whose relay hop is the outer transport address).  The three
+// class bits of a circuit address are those of its outer transport address: that
+// is how FilterAddrs and RecordResult (manet.IsPublicAddr, isProtocolAddr) see it,
+// and the property is stated per public UDP / IPv6 address, circuit or not.  The
+// model ignores bit 3.
 type c20Tmpl struct {
 	format string
 	cls    int64
@@ -186,6 +191,56 @@ var c20Tmpls = []c20Tmpl{
 	{"/ip6/2001:db8::5/udp/%d/quic-v1", 6},
 	{"/ip6/2600::1/udp/%d/quic-v1", 7},
 	{"/ip6/2a00:1450::5/udp/%d/quic-v1/webtransport", 7},
+	// the same eight classes for relayed (circuit) addresses: class of the relay hop + 8
+	{"/ip4/192.168.1.5/tcp/%d/p2p/" + c20RelayID + "/p2p-circuit", 8},
+	{"/ip4/1.2.3.4/tcp/%d/p2p/" + c20RelayID + "/p2p-circuit", 9},
+	{"/dns4/example.com/tcp/%d/p2p/" + c20RelayID + "/p2p-circuit", 9},
+	{"/ip4/10.0.0.1/udp/%d/quic-v1/p2p/" + c20RelayID + "/p2p-circuit", 10},
+	{"/ip4/203.0.113.7/udp/%d/quic-v1/p2p/" + c20RelayID + "/p2p-circuit", 10},
+	{"/ip4/1.2.3.4/udp/%d/quic-v1/p2p/" + c20RelayID + "/p2p-circuit", 11},
+	{"/ip4/5.6.7.8/udp/%d/quic-v1/p2p/" + c20RelayID + "/p2p-circuit/p2p/" + c20TargetID, 11},
+	{"/ip4/4.3.2.1/udp/%d/quic-v1/webtransport/p2p/" + c20RelayID + "/p2p-circuit", 11},
+	{"/dns4/example.com/udp/%d/quic-v1/p2p/" + c20RelayID + "/p2p-circuit", 11},
+	{"/ip6/fd00::1/tcp/%d/p2p/" + c20RelayID + "/p2p-circuit", 12},
+	{"/ip6/2600::1/tcp/%d/p2p/" + c20RelayID + "/p2p-circuit", 13},
+	{"/ip6/2a00:1450::5/tcp/%d/p2p/" + c20RelayID + "/p2p-circuit/p2p/" + c20TargetID, 13},
+	{"/ip6/fd12::7/udp/%d/quic-v1/p2p/" + c20RelayID + "/p2p-circuit", 14},
+	{"/ip6/2600::1/udp/%d/quic-v1/p2p/" + c20RelayID + "/p2p-circuit", 15},
+	{"/ip6/2a00:1450::5/udp/%d/quic-v1/p2p/" + c20RelayID + "/p2p-circuit/p2p/" + c20TargetID, 15},
+}
+
+// peer ids used in circuit addresses (any valid ids)
+const (
+	c20RelayID  = "QmNnooDu7bfjPFoTZYxMNLWUQJyrVwtbZg5gBMjTezGAJN"
+	c20TargetID = "QmcZf59bWwK5XFi76CZX8cbJ4BhTzzA3gU1ZjYZcYW3dwt"
+)
+
+// c20AddCircuit gives the swarm a (scripted, never dialed here) transport for /p2p-circuit
+// addresses, as a node with the relay client enabled has: without one, circuit addresses are
+// dropped as undialable before they reach the black hole filter.
+func c20AddCircuit(sw *Swarm) {
+	sw.transports.Lock()
+	sw.transports.m[ma.P_CIRCUIT] = &c20CircuitTpt{}
+	sw.transports.Unlock()
+}
+
+// c20CircuitTpt claims circuit addresses only (like the relay client transport)
+type c20CircuitTpt struct{ transport.Transport }
+
+func (*c20CircuitTpt) CanDial(a ma.Multiaddr) bool { return isRelayAddr(a) }
+func (*c20CircuitTpt) Protocols() []int            { return []int{ma.P_CIRCUIT} }
+func (*c20CircuitTpt) Proxy() bool                 { return true }
+func (*c20CircuitTpt) Close() error                { return nil }
+
+// the templates of a class among those usable through the swarm entry points
+func c20TmplsOf(cls int64) []c20Tmpl {
+	var l []c20Tmpl
+	for _, t := range c20Tmpls {
+		if t.cls == cls && c20SwarmOK(t) {
+			l = append(l, t)
+		}
+	}
+	return l
 }
 
 func c20Addr(t c20Tmpl, port int) ma.Multiaddr {
@@ -298,6 +353,10 @@ func c20DialAddr(sw *Swarm, d *blackHoleDetector, a ma.Multiaddr, scenario int) 
 	sw.transports.Lock()
 	saved := sw.transports.m
 	sw.transports.m = map[int]transport.Transport{ma.P_TCP: f}
+	if scenario != 3 {
+		// a circuit address goes to whatever transport is registered for /p2p-circuit
+		sw.transports.m[ma.P_CIRCUIT] = f
+	}
 	sw.transports.Unlock()
 	defer func() {
 		sw.transports.Lock()
@@ -350,6 +409,8 @@ func c20Detector(out *verifh.Out, r *verifh.Rand, length int, sw *Swarm, mkSw fu
 	assign := true
 	if mkSw != nil {
 		sws = [2]*Swarm{mkSw(udp, ip6, false), mkSw(udp, ip6, true)}
+		c20AddCircuit(sws[0])
+		c20AddCircuit(sws[1])
 		defer sws[0].Close()
 		defer sws[1].Close()
 		dets = [2]*blackHoleDetector{sws[0].bhd, sws[1].bhd}
@@ -365,7 +426,104 @@ func c20Detector(out *verifh.Out, r *verifh.Rand, length int, sw *Swarm, mkSw fu
 	}
 	line := []int64{1, un, um, vn, vm}
 	removedAny, usedRO, roAfterBlocked := false, false, false
+	// Directed part, steered by the counters' current state (shadow state = the observations
+	// already written).  forced: the next operation is this one, on the read-write detector,
+	// with this address template.
+	//  * prologue (1 case in 3): N failed dials of public addresses of one kind, circuit or
+	//    direct, so that the counter is Blocked early in the case;
+	//  * relayed-probe episode, started while a counter is Blocked: requests for a peer that
+	//    only has a circuit address whose relay hop is a public address of the blocked kind,
+	//    until one is let through (the probe), then the successful result of that dial.
+	type c20Forced struct {
+		k    int // 0 filter, 7 record, 12 dialAddr, 14 CanDial (the switch below)
+		t    c20Tmpl
+		succ bool
+	}
+	var forced []c20Forced
+	pubOf := func(ip6kind, circuit bool) c20Tmpl {
+		// a public address of the kind: udp (3, 7) or ip6 (5, 7), or their circuit twins
+		cls := []int64{3, 7}
+		if ip6kind {
+			cls = []int64{5, 7}
+		}
+		c := cls[r.Intn(2)]
+		if circuit {
+			c += 8
+		}
+		l := c20TmplsOf(c)
+		return l[r.Intn(len(l))]
+	}
+	if r.Chance(1, 3) {
+		ip6kind := r.Chance(1, 2)
+		n := int(un)
+		if ip6kind {
+			n = int(vn)
+		}
+		for j := 0; j < n; j++ {
+			k := 7
+			if sw != nil && r.Chance(1, 3) {
+				k = 12
+			}
+			forced = append(forced, c20Forced{k: k, t: pubOf(ip6kind, r.Chance(1, 2)), succ: false})
+		}
+		out.Cover("detector.directed.block_prologue")
+	}
+	type c20Episode struct {
+		active  bool
+		ip6kind bool
+		t       c20Tmpl
+		left    int
+	}
+	var ep c20Episode
+	episodes := 0
+	lastKept := false // the last forced filter of the episode let the address through
 	for i := 0; i < length; i++ {
+		if len(forced) == 0 && !ep.active && episodes < 3 && r.Chance(1, 3) {
+			ub, vb := c20State(udp) == 2, c20State(ip6) == 2
+			if ub || vb {
+				ep = c20Episode{active: true, ip6kind: vb && (!ub || r.Chance(1, 2))}
+				// the peer's only address: relayed through a public hop of the blocked kind
+				// (1 episode in 4: a direct address, for comparison)
+				ep.t = pubOf(ep.ip6kind, !r.Chance(1, 4))
+				ep.left = int(un)
+				if ep.ip6kind {
+					ep.left = int(vn)
+				}
+				ep.left++
+				episodes++
+				out.Cover("detector.directed.probe_episode")
+			}
+		}
+		if ep.active && len(forced) == 0 {
+			if lastKept {
+				// the probe was let through: its dial succeeds
+				k := 7
+				if sw != nil && r.Chance(1, 2) {
+					k = 12
+				}
+				forced = append(forced, c20Forced{k: k, t: ep.t, succ: true})
+				if ep.t.cls >= 8 {
+					out.Cover("detector.directed.circuit_probe_let_through_then_success")
+				} else {
+					out.Cover("detector.directed.direct_probe_let_through_then_success")
+				}
+				ep.active, lastKept = false, false
+			} else if ep.left > 0 {
+				ep.left--
+				k := 0
+				if sw != nil {
+					k = []int{0, 5, 14}[r.Intn(3)]
+				}
+				forced = append(forced, c20Forced{k: k, t: ep.t})
+			} else {
+				ep.active = false
+			}
+		}
+		var fo *c20Forced
+		if len(forced) > 0 {
+			fo = &forced[0]
+			forced = forced[1:]
+		}
 		k := r.Intn(16)
 		if k >= 12 && sw == nil {
 			k = 8
@@ -373,22 +531,40 @@ func c20Detector(out *verifh.Out, r *verifh.Rand, length int, sw *Swarm, mkSw fu
 		ro := 0
 		if r.Chance(1, 3) {
 			ro = 1
+		}
+		if fo != nil {
+			k, ro = fo.k, 0
+		}
+		if ro == 1 {
 			usedRO = true
 			if c20State(udp) == 2 || c20State(ip6) == 2 {
 				roAfterBlocked = true
 			}
 		}
 		d := dets[ro]
+		pick := func(swarmOnly bool) c20Tmpl {
+			if fo != nil {
+				return fo.t
+			}
+			t := c20Tmpls[r.Intn(len(c20Tmpls))]
+			for swarmOnly && !c20SwarmOK(t) {
+				t = c20Tmpls[r.Intn(len(c20Tmpls))]
+			}
+			return t
+		}
 		switch {
 		case k < 5 || (k < 7 && sw != nil): // FilterAddrs, directly or through the swarm
 			viaSwarm := k >= 5
 			cnt := r.Intn(7)
+			if fo != nil {
+				cnt = 1
+			}
 			addrs := make([]ma.Multiaddr, 0, cnt)
 			cls := make([]int64, 0, cnt)
 			var noise []ma.Multiaddr
 			for j := 0; j < cnt; j++ {
-				t := c20Tmpls[r.Intn(len(c20Tmpls))]
-				for viaSwarm && !c20SwarmOK(t) {
+				t := pick(false)
+				for fo == nil && viaSwarm && !c20SwarmOK(t) {
 					// an address the swarm has no transport for is dropped before the black hole
 					// filter: it is passed along but is not part of the request
 					if a := c20Addr(t, 1000+j); sw.TransportForDialing(a) == nil && r.Chance(1, 2) {
@@ -424,25 +600,52 @@ func c20Detector(out *verifh.Out, r *verifh.Rand, length int, sw *Swarm, mkSw fu
 			if fl.removedAny {
 				removedAny = true
 			}
+			if fo != nil && ep.active {
+				lastKept = len(fl.flags) == 1 && fl.flags[0] == 1
+			}
+			for _, c := range cls {
+				if c >= 8 {
+					out.Cover("detector.op.filter_with_circuit_addr")
+					break
+				}
+			}
 			line = append(line, cls...)
 			line = append(line, fl.flags...)
 		case k < 10: // RecordResult through the detector
-			t := c20Tmpls[r.Intn(len(c20Tmpls))]
+			t := pick(false)
 			succ := r.Chance(1, 4)
+			if fo != nil {
+				succ = fo.succ
+			}
 			d.RecordResult(c20Addr(t, 7), succ)
 			line = append(line, 11, int64(ro), t.cls, c20b(succ))
 			out.Cover("detector.op.record")
-		case k >= 14: // Swarm.CanDial: one request for one address
-			t := c20Tmpls[r.Intn(len(c20Tmpls))]
-			for !c20SwarmOK(t) {
-				t = c20Tmpls[r.Intn(len(c20Tmpls))]
+			if t.cls >= 8 {
+				out.Cover("detector.op.record_circuit_addr")
 			}
+		case k >= 14: // Swarm.CanDial: one request for one address
+			t := pick(true)
 			ok := use(ro).CanDial("somepeer", c20Addr(t, 1000))
 			line = append(line, 16, int64(ro), t.cls, c20b(ok))
 			out.Cover("detector.op.candial")
+			if t.cls >= 8 {
+				out.Cover("detector.op.candial_circuit_addr")
+			}
+			if fo != nil && ep.active {
+				lastKept = ok
+			}
 		case k >= 12: // Swarm.dialAddr with a scripted transport
-			t := c20Tmpls[r.Intn(len(c20Tmpls))]
+			t := pick(false)
 			scenario := r.Intn(7)
+			if fo != nil {
+				scenario = []int{1, 0}[c20b(fo.succ)]
+				if r.Chance(1, 4) {
+					scenario = []int{6, 5}[c20b(fo.succ)]
+				}
+			}
+			if t.cls >= 8 {
+				out.Cover("detector.op.dialaddr_circuit_addr")
+			}
 			dd := d
 			if !assign {
 				dd = nil
@@ -523,6 +726,10 @@ func TestVerifC20(t *testing.T) {
 		if isProtocolAddr(a, ma.P_IP6) {
 			cls |= 4
 		}
+		if isRelayAddr(a) {
+			cls |= 8
+			out.Cover("classtable.circuit_templates")
+		}
 		if cls != tm.cls {
 			out.Comment(fmt.Sprintf("class-table: %s expected %d predicates say %d", a, tm.cls, cls))
 			out.Cover("classtable.disagreements")
@@ -561,6 +768,7 @@ func TestVerifC20(t *testing.T) {
 	}
 	sw := makeSwarmWithNoListenAddrs(t)
 	defer sw.Close()
+	c20AddCircuit(sw)
 	mkSw := func(udp, ip6 *BlackHoleSuccessCounter, ro bool) *Swarm {
 		opts := []Option{WithUDPBlackHoleSuccessCounter(udp), WithIPv6BlackHoleSuccessCounter(ip6)}
 		if ro {
@@ -633,6 +841,7 @@ func TestVerifC20Replay(t *testing.T) {
 	dets := [2]*blackHoleDetector{{udp: udp, ipv6: ip6}, {udp: udp, ipv6: ip6, readOnly: true}}
 	sw := makeSwarmWithNoListenAddrs(t)
 	defer sw.Close()
+	c20AddCircuit(sw)
 	line := append([]int64{}, in[:5]...)
 	for i := 5; i < len(in); {
 		switch in[i] {
